@@ -27,6 +27,11 @@ PyList_SetSlice PyObject_SetItem PyType_Ready PySet_Add""".split())
 ZERO_IS_ERROR = frozenset("PyArg_ParseTuple PyArg_ParseTupleAndKeywords PyArg_UnpackTuple".split())
 
 
+# pointer-returning lookups whose NULL means "not there" (no exception set)
+NULL_NOT_ERROR = frozenset("""PyDict_GetItem PyDict_GetItemString PyDict_GetItemWithError
+PyErr_Occurred PyWeakref_GetObject PyTuple_GET_ITEM PyList_GET_ITEM""".split())
+
+
 class _RetVals(Analysis):
     def __init__(self, cfg, tu):
         Analysis.__init__(self, cfg, tu)
@@ -125,6 +130,8 @@ class ErrExc(Analysis):
         t = (call.t or "").strip()
         if c[0] == "fn" and c[1] in ZERO_IS_ERROR:
             return "zero-err", None
+        if c[0] == "fn" and c[1] in NULL_NOT_ERROR:
+            return "int", None            # NULL means "absent", no exception
         if t.endswith("*"):
             return "ptr", None
         if c[0] == "fn" and c[1] in self.tu.funcs:
@@ -281,7 +288,16 @@ class ErrExc(Analysis):
         cls = self._edge_class(dom[0], dom[1], op, cst, want)
         cur = sget(st, "x")
         tp = path(tgt) if tgt.k != "CallExpr" else None
+        if tp is not None and dom[0] == "int" and dom[1]:
+            # the values of the result that are consistent with this edge; none: infeasible
+            keep = [x for x in dom[1] if {"==": x == cst, "!=": x != cst, "<": x < cst, ">": x > cst,
+                                          "<=": x <= cst, ">=": x >= cst}[op] == want]
+            if not keep:
+                return None
+            st = sset(st, "c:" + tp, ("int", tuple(sorted(keep))))
         if cls == "err":
+            if getattr(self, "strict", False) and dom[0] == "int" and not dom[1]:
+                return st      # an int API of unknown convention (memcmp, PyNumber_AsSsize_t): negative is not "failed"
             return sdel(sset(st, "x", "yes"), "xv")
         if cls == "ok" and cur == "maybe" and tp is not None and sget(st, "xv") == tp:
             # a later test of the same result excludes its error values
@@ -344,3 +360,96 @@ def extend(res, use_cache=True):
     res.count("ERR-NOEXC", n)
     if "ERR-NOEXC" not in res.rules:
         res.rules.append("ERR-NOEXC")
+
+
+# ---------------------------------------------------------------------------
+# EXC-LEAK: the dual - no non-error return with an exception certainly pending.
+
+def _accumulator(fn, name):
+    """a local whose only definitions are constants and compound assignments /
+    increments (a counter): its value is never a callee's error sentinel"""
+    defs = 0
+    for n in fn.walk():
+        if n.k == "VarDecl" and n.n == name:
+            init = [c for c in n.kids if c.k != "Absent"]
+            if init and const_int(init[-1]) is None:
+                return False
+            defs += 1
+        elif n.k == "BinaryOperator" and n.v == "=" and path(n.kids[0]) == name:
+            if const_int(n.kids[1]) is None:
+                return False
+            defs += 1
+        elif n.k == "ParmVarDecl" and n.n == name:
+            return False
+    return defs > 0
+
+
+def analyse_leak(tu):
+    """Reported: a return, reached with an exception certainly pending (set on
+    this path by a failing API / activation / PyErr_Set*), of (a) a constant
+    that is not the function's error value, (b) the result of a further call
+    (made with the exception pending), (c) a counter.  Functions following the
+    boolean convention (values 0/1, 0 = failure, on every such return) are the
+    accepted idiom."""
+    findings = []
+    n = 0
+    for name in tu.order:
+        if name.startswith("PyInit_") or name == "module_init":
+            continue
+        fn = tu.funcs[name]
+        rt = (fn.t or "").split("(")[0].strip()
+        if rt == "void" or tu.body(name) is None:
+            continue
+        an = ErrExc(CFG(fn), tu)
+        an.strict = True
+        try:
+            an.solve()
+        except AnalysisError:
+            continue
+        hits = []
+        boolean = True
+        for r in an.cfg.returns():
+            if r.e is None:
+                continue
+            for st in an.IN.get(r.id, ()):
+                st2 = an.flags_stmt(r, st)
+                n += 1
+                if sget(st2, "x") != "yes":
+                    continue
+                v = an.flag_value_of(r.e, st2)
+                is_err = (rt.endswith("*") and v == 0) or (isinstance(v, int) and v < 0)
+                if is_err:
+                    boolean = boolean and rt.endswith("*")
+                    continue
+                e0 = strip(r.e)
+                kind = None
+                if e0 is not None and e0.k == "DeclRefExpr" and _accumulator(fn, e0.n):
+                    kind = "the counter %s" % e0.n
+                    boolean = False
+                elif isinstance(v, int) or v == "NN":
+                    kind = "%s (= %s, not an error value)" % (text(r.e)[:30], "non-NULL" if v == "NN" else v)
+                    if v != 0:
+                        boolean = False
+                elif e0 is not None and e0.k == "CallExpr":
+                    kind = "the result of a further call, %s" % text(e0)[:40]
+                    boolean = False
+                elif e0 is not None and e0.k == "DeclRefExpr" and _accumulator(fn, e0.n):
+                    kind = "the counter %s" % e0.n
+                    boolean = False
+                if kind:
+                    hits.append((r, st2, kind))
+                    break
+        vals = return_values(tu, name)
+        if hits and boolean and not rt.endswith("*") and vals is not None and vals <= {0, 1}:
+            continue        # 0 = failure, 1 = success
+        for r, st2, kind in hits:
+            findings.append(dict(
+                rule="EXC-LEAK", function=name, file=r.where.split(":")[0], line=r.line,
+                construct="returns %s with an exception pending" % kind,
+                detail="on this path an API / activation has failed and its exception is "
+                       "still set, yet the function returns a value that is not its error "
+                       "value: the interpreter raises SystemError('returned a result with an "
+                       "exception set') in place of the original exception (the Python "
+                       "implementation raises the original one)",
+                path=witness_lines(an.witness(r, st2))))
+    return dict(findings=findings, n=n)
